@@ -51,6 +51,21 @@ def gen_budget(rng, profile='migrate', year=2025):
         src = {'name': nm, 'file': file, 'layout': lay, 'rows': rows, 'supplemental': False,
                'settings': st.source_settings(lay, nm, file)}
         b['sources'].append(src)
+    if profile != 'migrate' and len(b['sources']) > 1 and rng.random() < 0.4:
+        # two sources whose *format strings* are character-identical while their per-source settings differ:
+        # anything keyed on (or shared through) the format string leaks one source's settings into the other
+        a, c2 = b['sources'][0], b['sources'][1]
+        lay = dict(a['layout'])
+        if lay['delimiter'] != 'regex':
+            lay['has_header'] = not a['layout']['has_header'] if rng.random() < 0.6 else a['layout']['has_header']
+            lay['delimiter'] = rng.choice([d for d in st.CSV_DELIMS if d != a['layout']['delimiter']] + [a['layout']['delimiter']])
+            if lay['sign'] == '':
+                lay['negate_setting'] = not a['layout']['negate_setting'] if rng.random() < 0.5 else a['layout']['negate_setting']
+            lay['decimal'] = rng.choice(['.', ','])
+            lay['eol'] = rng.choice(['\n', '\r\n'])
+            c2['layout'] = lay
+            st.fill_caps(rng, lay, c2['rows'])
+            c2['settings'] = st.source_settings(lay, c2['name'], c2['file'])
     fields = sorted({e for s in b['sources'] for e in s['layout']['extras'] if s['layout']['mode'] == 1})
     supp_name = None
     if profile == 'full' and rng.random() < 0.3:
